@@ -87,6 +87,8 @@ class BasicConverter:
         loaded: dict[str, Any] = json.loads(data)
         args = [loaded.pop(name, self.args[name]) for name in self.args]
         kwargs = {name: loaded.pop(name, self.kwargs[name]) for name in self.kwargs}
+        if any(v is inspect.Parameter.empty for v in (*args, *kwargs.values())):
+            raise TypeError("Missing a required argument.")
         if self.all_kwargs:
             kwargs.update(loaded)
         elif self.all_args:
@@ -165,7 +167,7 @@ class PydanticConverter:
         )
 
     def convert_inputs(self, data: str) -> Params:
-        loaded = dict(self.input_pydantic_model.model_validate_json(data))
+        loaded = dict(self.input_pydantic_model.model_validate_json(data or "{}"))
 
         if self.args:
             return ([loaded.pop(arg) for arg in self.args], loaded)
